@@ -32,8 +32,8 @@ TECHNIQUE = "must-pass-through and filter extraction by abstract evaluation"
 LEVEL_TEXT = (
     "Decided on the source: every result of a shifting operation passes through _reattach_coords with the same grid and the caller's keep_coords; that "
     "function attaches exactly the grid dataset's coordinates whose dimensions fit the result (hence the target position's coordinate, never one on the "
-    "abandoned dimension) and drops non-dimension coordinates iff keep_coords is false; padding always works on coordinate-stripped data; the cumsum path "
-    "renames to the target dimension and drops stale coordinates first. Coordinate values, attributes and the result's name are xarray's doing (not decided)."
+    "abandoned dimension) and drops non-dimension coordinates iff keep_coords is false; padding always works on coordinate-stripped data; on the cumsum path the array "
+    "handed to _reattach_coords has the target dimension's name and carries no coordinate of the abandoned position (coordinates tracked through xarray's coordinate API). Coordinate values, attributes and the result's name are xarray's doing (not decided)."
 )
 LEVEL_NOTE = "Trusted: xarray coordinate API. The behavioural clauses on values/attrs/name are outside static reach."
 
